@@ -314,6 +314,9 @@ def classify(case, r, profile, graphs):
         code = src_line(f, ln) if "/src/validator/" in f else ""
         if "/abnf_to_pest-" in f and schema and ".abnf" in schema:
             return "kf-c05-abnf-to-pest-panic"
+        if "/pest_meta-" in f and f.endswith("/src/parser.rs") and "incorrect string literal" in msg and schema and ".abnf" in schema \
+                and re.search(r"%x(?:[dD][89a-fA-F][0-9a-fA-F]{2}|0*1[1-9a-fA-F][0-9a-fA-F]{4}|0*[2-9a-fA-F][0-9a-fA-F]{5,})", schema):
+            return "kf-c05-abnf-invalid-scalar-panic"
         if profile == "debug" and "assertion failed: self.map_entry_candidates.is_none()" in msg \
                 and "debug_assert!(self.map_entry_candidates.is_none())" in code and case["ep"] in ("J", "C", "V"):
             return "kf-c05-map-entry-candidates-assert"
@@ -340,7 +343,7 @@ def classify(case, r, profile, graphs):
                 return "kf-c05-choice-from-group-cycle"
         if generic_cycle(g):
             return "kf-c05-generic-cycle"
-        if v in ("STACK", "TIMEOUT", "HANG") and ".abnf" in schema and not cyclic(g["refs"]):
+        if v == "STACK" and ".abnf" in schema and not cyclic(g["refs"]):
             return "kf-c05-abnf-left-recursion-stack"
         if v in ("TIMEOUT", "HANG"):
             acyc, _, calls = graphs.q.get((schema, "root", None), (False, "?", 0))
@@ -622,6 +625,87 @@ def gen_bounded_zero_width(rng, tier):
         out.append({"ep": "J", "schema": s, "doc": d, "fam": "hostile/bounded-zero-width"})
         out.append({"ep": "C", "schema": s, "doc": bytes.fromhex(cb), "fam": "hostile/bounded-zero-width"})
         out.append({"ep": "V", "schema": "a = [* r]\n" + s.replace("a = ", "r = ", 1), "doc": "1\n", "fam": "hostile/bounded-zero-width"})
+    return out
+
+
+def cddl_text(t):
+    """a CDDL text literal whose value (after CDDL unescaping) is t"""
+    return '"' + t.replace("\\", "\\\\").replace('"', '\\"').replace("\n", "\\n") + '"'
+
+
+HOSTILE_PATTERNS = {
+    "trailing-backslash": ["abc\\", "\\", "[A-Z]:\\\\", "\\\\", "a\\\\\\", "\u00e9\\", "\\d\\", "a|b\\", "(a)\\", "[a]\\", "\\.\\\\", "x{2}\\"],
+    "unfinished-escape": ["\\x", "\\x4", "a\\x{", "\\x{41", "\\u", "\\u{", "\\u{12", "\\u00", "\\p", "\\p{", "\\p{Gree", "\\P{", "\\k<", "\\c", "a\\Q", "\\0", "\\8", "\\b\\B\\A\\z\\",
+                          "[\\", "[a\\", "(\\", "\\N{", "\\o{"],
+    "unclosed": ["[", "[a-", "[^", "[[:alpha:]", "[[:alpha", "(", "(a", "(?", "(?P<n", "(?P<n>", "(?:", "(?i", "a)", "]", "[]", "[]]", "(()", "[a-\\", "[a-]", "[z-a]", "(?<", "(?<=", "(?#", "{", "}"],
+    "dangling-quantifier": ["*", "+", "?", "a**", "a++", "a??", "a{", "a{1", "a{1,", "a{,}", "{1}", "a{2,1}", "a{99999}", "a{4294967296}", "|*", "^*", "$+", "a+?+", "(*)", "(?:+)", "a{1}{2}{3}", "a|*", "\\b+"],
+    "multi-byte": ["\u00e9\\d", "\\d\u00e9", "\\\u00e9", "\u65e5\\\\\u672c", "\\\U0001f600", "[\u00e9-\\x{ffff}]", "\\\\\u00e9\\\\", "\U0001f600\\.", "\u00e9*\\w", "\\p{L}\u00e9\\", "(\u00e9|\\\u00e9)",
+                   "\u00e9{2}\\s", "[\\\u00e9]", "\\\u0301", "a\u0301\\b", "\\W\U0001f600\\W", "\ufeff\\"],
+    "empty": ["", " ", "|", "()", "(?:)", "^$", "[^\\s\\S]"],
+}
+PATTERN_VALUES = ["abc", "C:\\", "", "a", "\u00e9", "abc\\", "\U0001f600.", "aaaaaaaaaaaaaaaaaaaaaaaaaaaaaaab", "\u65e5\\\u672c"]
+HOSTILE_ABNF = ['"a" \\', "%x", "%x4", "%x41-", "%x41.", "%d", "%d65-", "%b2", "%b", '"abc', '"', "(", '("a"', "[", '["a"', "*", "1*", "*2", "1*2", "2*1\"a\"", "<", "<abc", '"a" /', "/", '"\u00e9"',
+                "%xE9", "%x110000", "%xD800", '"a" ; c', ";", "", " ", '\\', '"\\"', "%s\"a\"", "%i\"A\"", '*"a" *"a" *"a"', "1*1*\"a\"", '"a" "a" /', "x", "y", "x-y", "1x", "%x41 %x", '"a"\\n']
+
+
+def gen_patterns(rng, tier):
+    """hostile patterns for the regexp-like controls (.regexp, .pcre, .abnf, .abnfb): patterns ending in a backslash, in an
+    unfinished escape, an unclosed class or group, a dangling quantifier, very long alternations, multi-byte characters next
+    to escapes, the empty pattern - at top level, in a map member, in a map key, in an array element, JSON and CBOR (and CSV),
+    against matching and non-matching values.  Only "returns Ok or Err" is required."""
+    out = []
+    pats = [(cls, p) for cls, ps in HOSTILE_PATTERNS.items() for p in ps]
+    words = ["w%d" % i for i in range(3000)]
+    pats += [("long-alternation", "|".join(words)), ("long-alternation", "(" + "|".join("a" * (i % 7 + 1) for i in range(2000)) + ")+\\"),
+             ("long-alternation", "|".join(["\\d"] * 1500)), ("long-alternation", "|" * 4000), ("long-alternation", "(a|" * 200 + "b" + ")" * 200),
+             ("long-alternation", "|".join("\u00e9%d\\." % i for i in range(1500)))]
+
+    def contexts(ctl, lit, val, binary=False):
+        """(schema, json document or None, cbor document)"""
+        base = "bstr" if binary else "tstr"
+        t = "%s %s %s" % (base, ctl, lit)
+        enc = (cbor_head(2, 0 if len(val.encode()) < 24 else 1 if len(val.encode()) < 256 else 2, len(val.encode())) + val.encode()) if binary else cbor_text(val)
+        j = None if binary else json.dumps(val)
+        res = [("a = %s" % t, j, enc),
+               ("a = { k: %s }" % t, None if j is None else '{"k": %s}' % j, b"\xa1\x61k" + enc),
+               ("a = [* %s]" % t, None if j is None else "[%s]" % j, b"\x81" + enc),
+               ("a = [int, %s]" % t, None if j is None else "[1, %s]" % j, b"\x82\x01" + enc)]
+        if not binary:
+            res.append(("a = { * %s => int }" % t, "{%s: 1}" % j, b"\xa1" + enc + b"\x01"))
+        return res
+
+    for cls, pat in pats:
+        lit = cddl_text(pat)
+        ctls = [".regexp", ".pcre"] if len(pat) < 3000 or tier == "thorough" else [".regexp"]
+        vals = PATTERN_VALUES if tier == "thorough" else (["abc", "C:\\"] + rng.sample(PATTERN_VALUES[2:], 1))
+        for ctl in ctls:
+            for val in vals:
+                cx = contexts(ctl, lit, val)
+                if tier != "thorough":
+                    cx = [cx[0]] + rng.sample(cx[1:], 2)
+                for schema, j, cb in cx:
+                    out.append({"ep": "J", "schema": schema, "doc": j, "fam": "hostile/pattern-" + cls})
+                    out.append({"ep": "C", "schema": schema, "doc": cb, "fam": "hostile/pattern-" + cls})
+        out.append({"ep": "V", "schema": "a = [* [* tstr .regexp %s]]" % lit, "doc": "abc,C:\\\n", "fam": "hostile/pattern-" + cls})
+        for ep in "PSF":
+            out.append({"ep": ep, "schema": "a = tstr .regexp %s" % lit, "fam": "hostile/pattern-" + cls})
+    # ABNF grammars: "<rule>\n<grammar>"; the hostile text is a rule body, a whole grammar, or the rule name
+    grammars = []
+    for body in HOSTILE_ABNF:
+        grammars += ["x\nx = " + body, "x\nx = \"a\"\ny = " + body, "x\n" + body]
+    grammars += ["x\nx = " + " / ".join('"w%d"' % i for i in range(300)), "x\n" + "".join('r%d = "a"\n' % i for i in range(400)) + 'x = r0', "\\\nx = \"a\"", "x\\\nx = \"a\"",
+                 "\nx = \"a\"", "x\n\n\nx = \"a\"\n\n", "x\r\nx = \"a\"\r\n", "\u00e9\n\u00e9 = \"a\""]
+    for gtext in grammars:
+        lit = cddl_text(gtext)
+        for ctl, binary in ((".abnf", False), (".abnfb", True)):
+            for val in (["a", "abc\\"] if tier != "thorough" else ["a", "abc\\", "", "\u00e9", "w7"]):
+                cx = contexts(ctl, lit, val, binary)
+                if tier != "thorough":
+                    cx = [cx[0], rng.choice(cx[1:])]
+                for schema, j, cb in cx:
+                    if j is not None:
+                        out.append({"ep": "J", "schema": schema, "doc": j, "fam": "hostile/pattern-abnf"})
+                    out.append({"ep": "C", "schema": schema, "doc": cb, "fam": "hostile/pattern-abnf"})
     return out
 
 
@@ -1126,6 +1210,7 @@ def run(tier, seed):
         (rest if k in seen_se else first).append(c)
         seen_se.add(k)
     bzw = gen_bounded_zero_width(rng, tier)
+    pat_cases = gen_patterns(rng, tier)
     alias_cases = gen_alias_family(rng, (200 if quick else 5000) * (3 if wide else 1))
     # ---- 3. run ---------------------------------------------------------------------------
     t_run = time.time()
@@ -1150,6 +1235,8 @@ def run(tier, seed):
     execute(dbg, "debug", ms=hms)
     execute(bzw, "release", ms=hms)
     execute(bzw if not quick else bzw[::3], "debug", ms=hms)
+    execute(pat_cases, "release", ms=max(hms, 3000))
+    execute(pat_cases if not quick else pat_cases[::3], "debug", ms=max(hms, 3000))
     phase("hostile")
     # outside the bound: where does depth start to hurt (reported, not judged)
     by = {}
